@@ -428,6 +428,74 @@ def to_smt2(assertions, logic=None):
     return ("(set-logic %s)\n" % logic if logic else "") + txt
 
 
+_lin_vars = {}
+
+
+def linearize(assertions, keep_squares=False):
+    """Monomial abstraction: every assertion is expanded to a sum of monomials (z3 simplify, som) and each distinct
+    non-linear monomial / quotient is replaced by a fresh real.  The result is implied by... rather: it is an
+    OVER-approximation (the fresh reals are unconstrained), so `unsat` of the abstraction is `unsat` of the original."""
+    out = []
+    memo = {}
+
+    def key_of(t):
+        return t.sexpr()
+
+    def ab(t):
+        i = t.get_id()
+        if i in memo:
+            return memo[i][1]
+        r = t
+        if z3.is_app(t) and t.num_args() > 0:
+            k = t.decl().kind()
+            ch = [ab(c) for c in t.children()]
+            if k == z3.Z3_OP_MUL:
+                nums = [c for c in ch if z3.is_rational_value(c) or z3.is_int_value(c)]
+                rest = [c for c in ch if not (z3.is_rational_value(c) or z3.is_int_value(c))]
+                if keep_squares and len(rest) == 2 and rest[0].eq(rest[1]) and z3.is_const(rest[0]):
+                    r = t.decl()(*ch)          # x*x of a single symbol stays non-linear (cheap for nlsat)
+                elif len(rest) >= 2:
+                    names = sorted(key_of(c) for c in rest)
+                    nm = "mono!" + "*".join(names)
+                    v = _lin_vars.get(nm)
+                    if v is None:
+                        v = z3.Real(nm) if any(z3.is_real(c) for c in rest) else z3.Int(nm)
+                        _lin_vars[nm] = v
+                    r = v
+                    for nmb in nums:
+                        r = nmb * r
+                else:
+                    r = t.decl()(*ch) if ch else t
+            elif k in (z3.Z3_OP_DIV, z3.Z3_OP_IDIV, z3.Z3_OP_MOD) and not (z3.is_rational_value(ch[1]) or z3.is_int_value(ch[1])):
+                nm = "quot!%s!%s!%d" % (key_of(ch[0]), key_of(ch[1]), k)
+                v = _lin_vars.get(nm)
+                if v is None:
+                    v = z3.Real(nm) if z3.is_real(t) else z3.Int(nm)
+                    _lin_vars[nm] = v
+                r = v
+            elif k == z3.Z3_OP_POWER:
+                nm = "pow!%s!%s" % (key_of(ch[0]), key_of(ch[1]))
+                v = _lin_vars.get(nm)
+                if v is None:
+                    v = z3.Real(nm) if z3.is_real(t) else z3.Int(nm)
+                    _lin_vars[nm] = v
+                r = v
+            else:
+                try:
+                    r = t.decl()(*ch)
+                except Exception:
+                    r = t
+        memo[i] = (t, r)
+        return r
+    for a in assertions:
+        try:
+            e = z3.simplify(a, som=True, som_blowup=10000000, mul_to_power=False, hoist_mul=False, flat=True)
+        except Exception:
+            e = a
+        out.append(ab(e))
+    return out
+
+
 def check(assertions, timeout=30.0, want_model=False, solvers=None):
     """Decide the conjunction of `assertions`.
 
@@ -458,6 +526,32 @@ def check(assertions, timeout=30.0, want_model=False, solvers=None):
                     pass
     else:
         STATS["nonlinear"] += 1
+        # cheap first: monomial abstraction decided in linear arithmetic (unsat there is unsat here)
+        try:
+            lin = linearize(assertions)
+            if not any(is_nonlinear(a) for a in lin):
+                ls = z3.Solver()
+                ls.set("timeout", int(min(timeout, 10.0) * 1000))
+                for a in lin:
+                    ls.add(a)
+                if str(ls.check()) == "unsat":
+                    dt = time.time() - t0
+                    STATS["seconds"] += dt
+                    STATS["by_solver"]["z3-linearised"] = STATS["by_solver"].get("z3-linearised", 0) + 1
+                    return "unsat", None, {"solver": "z3-linearised", "seconds": dt, "nonlinear": True}
+            # second abstraction: squares of single symbols stay (t*t = 1 => |t| = 1 is easy for nlsat once the big
+            # polynomials are atoms)
+            lin2 = linearize(assertions, keep_squares=True)
+            if any(is_nonlinear(a) for a in lin2):
+                body2 = to_smt2(lin2, logic="QF_NRA" if not any(z3.is_int(v) for v in free_vars(lin2).values()) else "ALL")
+                r2, _, _ = _external(body2, [], min(timeout, 8.0), False, solvers=("z3",))
+                if r2 == "unsat":
+                    dt = time.time() - t0
+                    STATS["seconds"] += dt
+                    STATS["by_solver"]["z3-semi-linearised"] = STATS["by_solver"].get("z3-semi-linearised", 0) + 1
+                    return "unsat", None, {"solver": "z3-semi-linearised", "seconds": dt, "nonlinear": True}
+        except Exception:
+            pass
         fv = free_vars(assertions)
         has_int = any(z3.is_int(v) for v in fv.values())
         has_real = any(z3.is_real(v) for v in fv.values()) or any(_mentions_real(a) for a in assertions)
